@@ -133,7 +133,7 @@ def evil(draw):
 
 POSITIONS = ["tag-arg-key", "element-arg-key", "extra-value", "unknown-section", "pipeline-first", "pipeline-last", "pipeline-middle", "tag-arg", "tag-arg", "tag-arg-seq",
              "pipeline-element-arg", "type-element-arg", "complex-key", "logging", "alias", "alias-in-tag", "top-level-key",
-             "root-tag", "merge-value", "merge-seq", "merge-in-tag", "merge-in-element"]
+             "root-tag", "merge-value", "merge-seq", "merge-in-tag", "merge-in-element", "merge-nested", "omap-item", "pairs-item", "value-key"]
 
 
 @st.composite
@@ -195,10 +195,22 @@ def build(doc):
         extra = {"l": [{"x": "&evil " + doc["evil"]["text"]}, {"t": tag, "n": {"m": [["a", wrap({"r": "evil"}, depth - 1, flow)]], "flow": flow}}], "flow": False}
     elif pos == "top-level-key":
         top_key = ev
+    elif pos in ("omap-item", "pairs-item", "value-key"):
+        # constructs whose parts PyYAML uses without looking at their tags: the single-pair mappings that make up an !!omap /
+        # !!pairs, and the `=` value of a scalar given as a mapping
+        tagtext = doc["evil"]["text"].split(" ", 1)[0]
+        if pos == "value-key":
+            inner = {"x": "!!str {=: " + tagtext + " text}"}
+        else:
+            inner = {"x": "!!" + pos.split("-")[0] + " [{a: 1}, " + tagtext + " {b: 2}]"}
+        host = {"m": [["a", {"s": 1}], ["typed", inner]], "flow": True}
+        extra = {"t": tag, "n": host} if doc.get("merge_shape") in ("{}", "[]") else wrap(host, depth - 1, flow)
     elif pos.startswith("merge"):
         # the forbidden tag sits on a node that is merged into a mapping with `<<` (the YAML merge key)
         mev = ev if doc.get("merge_shape", "own") == "own" else {"x": doc["evil"]["text"].split(" ", 1)[0] + " " + doc["merge_shape"]}
         merged = {"l": [{"m": [["q", {"s": 0}]], "flow": True}, mev], "flow": True} if pos == "merge-seq" else mev
+        if pos == "merge-nested":
+            merged = {"m": [["q", {"s": 0}], ["<<", mev]], "flow": True}  # a merged mapping that merges the tagged one itself
         host = {"m": [["a", {"s": 1}], ["<<", merged]], "flow": flow}
         if pos == "merge-in-tag":
             extra = {"t": tag, "n": wrap(host, depth - 1, flow) if depth > 1 else host}
@@ -259,7 +271,7 @@ def run_case(doc) -> Result:
     ensure()
     res.cls("kind:" + doc["evil"]["kind"], "pos:" + doc["pos"], "spelling:" + doc["evil"]["spelling"],
             "canary:" + str("canary" in str(doc["evil"]["target"])))
-    res.nontrivial = doc["pos"] in ("tag-arg-key", "element-arg-key", "tag-arg", "tag-arg-seq", "pipeline-element-arg", "type-element-arg", "complex-key", "alias", "alias-in-tag", "top-level-key") or doc["pos"].startswith("merge")
+    res.nontrivial = doc["pos"] in ("tag-arg-key", "element-arg-key", "tag-arg", "tag-arg-seq", "pipeline-element-arg", "type-element-arg", "complex-key", "alias", "alias-in-tag", "top-level-key") or doc["pos"].startswith("merge") or doc["pos"] in ("omap-item", "pairs-item", "value-key")
     return res
 
 
